@@ -189,7 +189,9 @@ def huge(exp):
     if v["k"] == "ymd":
         return abs(v["mo"]) > YM_SURE or any(f[x] is not None and int(f[x]) > YM_SURE for x in ("Y", "M"))
     if v["k"] == "dtd":
-        return any(f[x] is not None and int(f[x]) > 10 ** 18 for x in ("D", "H", "M", "S"))
+        # the representable maximum is a whole number of days that fits into 64 bits (+ 23:59:59.999999999), however the literal spreads
+        # its length over the fields: PT18446744073709551616H is far below it and must be read exactly
+        return abs(v["ns"]) // cal.NS_DAY > U64
     return False
 
 
